@@ -41,6 +41,10 @@ pub struct Net {
     pub peers: Vec<Peer>,
     pub peer_service: PeerConnectionService,
     pub root: PathBuf,
+    /// answer size (bytes) used by the serving side of a pull; 0 = the instance's own buffer size
+    /// (write_buffer_length 1024 KiB).  A small value makes the serving loops of node.rs / edge.rs
+    /// (get_entries, get_daily_nodes_for_room, filtered_by_room) cut one day's answer into several batches.
+    pub serve_buffer: std::sync::atomic::AtomicUsize,
 }
 
 #[derive(Default, Debug, Clone)]
@@ -56,6 +60,9 @@ pub struct PullTrace {
     pub nodes_received: usize,
     /// tombstones in the NodeDeletionLog answers
     pub tombs_received: usize,
+    /// number of NodeDeletionLog / Nodes answers that carried data (more than one per query = the answer was cut into batches)
+    pub tomb_batches: usize,
+    pub node_batches: usize,
     pub edges_received: usize,
     /// whether the room definition / history log / last-day log were asked for
     pub asked_room_node: bool,
@@ -111,7 +118,7 @@ impl Net {
             let services = DiscretServices { events, database: db.clone(), signature_verification: SignatureVerificationService::start(1) };
             peers.push(Peer { db, vk, services, path });
         }
-        Net { peers, peer_service, root }
+        Net { peers, peer_service, root, serve_buffer: std::sync::atomic::AtomicUsize::new(0) }
     }
 
     pub fn cleanup(&self) {
@@ -207,7 +214,10 @@ impl Net {
 
         let mut allowed = HashSet::new();
         allowed.insert(room);
-        let mut handle = RemotePeerHandle { allowed_room: allowed, db: self.peers[src].db.clone(), verifying_key: self.peers[dst].vk.clone(), reply: s_tx };
+        let mut serving_db = self.peers[src].db.clone();
+        let small = self.serve_buffer.load(std::sync::atomic::Ordering::SeqCst);
+        if small > 0 { serving_db.buffer_size = small; }
+        let mut handle = RemotePeerHandle { allowed_room: allowed, db: serving_db, verifying_key: self.peers[dst].vk.clone(), reply: s_tx };
         let remote_key = Arc::new(Mutex::new(self.peers[dst].vk.clone()));
         let ready = Arc::new(AtomicBool::new(true));
         let fingerprint = HardwareFingerprint { id: [7u8; 16], name: "verif".to_string() };
@@ -253,11 +263,13 @@ impl Net {
                         1 => {
                             if let Ok(v) = bincode::deserialize::<Vec<discret::verif_hooks::database::node::Node>>(&ans.serialized) {
                                 t.nodes_received += v.len();
+                                t.node_batches += 1;
                             }
                         }
                         2 => {
                             if let Ok(v) = bincode::deserialize::<Vec<NodeDeletionEntry>>(&ans.serialized) {
                                 t.tombs_received += v.len();
+                                t.tomb_batches += 1;
                             }
                         }
                         3 => {
@@ -369,6 +381,7 @@ pub struct StepRec {
     pub sig: Vec<u8>,     // signature produced by a local write (empty otherwise)
     pub days: Vec<i64>,   // days a pull exchanged
     pub dump: Dump,       // dump of the touched peer after the step
+    pub batches: usize,   // data-carrying answers of a pull (deletion records + rows)
     pub natural: bool,    // the daily log got clean without an explicit recompute request
     pub pull_ok: bool,
 }
@@ -408,7 +421,7 @@ impl<'a> Runner<'a> {
     pub fn next_id(&self) -> u64 { self.ids.len() as u64 + 1 }
 
     pub async fn exec(&mut self, op: Op) -> &StepRec {
-        let mut rec = StepRec { op: op.clone(), flag: 0, sig: vec![], days: vec![], dump: Dump::default(), natural: true, pull_ok: true };
+        let mut rec = StepRec { op: op.clone(), flag: 0, sig: vec![], days: vec![], dump: Dump::default(), batches: 0, natural: true, pull_ok: true };
         match op {
             Op::Create { p, x, t } => {
                 assert_eq!(x, self.next_id());
@@ -456,6 +469,7 @@ impl<'a> Runner<'a> {
                 rec.flag = tr.requested.len() as i64;
                 rec.days = tr.days.iter().map(|d| d.1).collect();
                 rec.pull_ok = tr.ok;
+                rec.batches = tr.tomb_batches + tr.node_batches;
                 rec.dump = self.dump(dst).await;
             }
         }
@@ -521,15 +535,16 @@ impl<'a> Runner<'a> {
         let (terms, obs) = self.encode();
         let k = terms.len() - final_len.min(terms.len());
         let coq = format!("{} {} {} {}", ctor, gn(self.n as u64), glist(&terms[..k]), glist(&terms[k..]));
-        let mut creates = 0; let mut updates = 0; let mut deletes = 0; let mut pulls = 0; let mut moved = 0; let mut unnatural = 0; let mut failed = 0;
+        let mut creates = 0; let mut updates = 0; let mut deletes = 0; let mut pulls = 0; let mut moved = 0; let mut unnatural = 0; let mut failed = 0; let mut maxb = 0;
         for s in &self.steps {
             match s.op { Op::Create { .. } => creates += 1, Op::Update { .. } => updates += 1, Op::Delete { .. } => deletes += 1, Op::Pull { .. } => { pulls += 1; if s.flag > 0 { moved += 1; } } }
             if !s.natural { unnatural += 1; }
             if !s.pull_ok { failed += 1; }
+            if s.batches > maxb { maxb = s.batches; }
         }
         Case { kind: kind.to_string(), coq, obs,
                meta: serde_json::json!({"peers": self.n, "creates": creates, "updates": updates, "deletes": deletes, "pulls": pulls, "pulls_that_requested_rows": moved,
-                                        "final_steps": final_len, "explicit_recompute": unnatural, "failed_pulls": failed, "extra": extra}) }
+                                        "final_steps": final_len, "explicit_recompute": unnatural, "failed_pulls": failed, "max_data_answers_in_one_pull": maxb, "extra": extra}) }
     }
 }
 
@@ -584,4 +599,42 @@ impl Net {
         })
         .await
     }
+}
+
+/// answer size that cuts a day of ~25 deletion records / ~18 rows into several answers (write_buffer_length = 4)
+pub const SMALL_ANSWER: usize = 4 * 1024 - 16;
+
+/// a row whose two deletion records name DIFFERENT versions: A creates x, everybody pulls; C updates
+/// it; only the peers in `seen` take the new version; one of them deletes the new version, a peer
+/// that still holds the old one deletes that (one second apart, `old_later` = the record naming the
+/// OLDER version is the more recent one); then the pulls given in `order`
+pub async fn two_versions_history(r: &mut Runner<'_>, seen: &[usize], del_new: usize, del_old: usize, old_later: bool, next_day: bool, order: &[(usize, usize)]) {
+    let t = T0 + 2000;
+    r.exec(Op::Create { p: 0, x: 1, t }).await;
+    for d in 1..r.n { r.exec(Op::Pull { dst: d, src: 0, t: t + d as i64 }).await; }
+    let updater = r.n - 1;
+    r.exec(Op::Update { p: updater, x: 1, t: t + 10_000 }).await;
+    for d in seen { if *d != updater { r.exec(Op::Pull { dst: *d, src: updater, t: t + 11_000 }).await; } }
+    let base = if next_day { t + DAY } else { t + 20_000 };
+    let (t_new, t_old) = if old_later { (base, base + 1000) } else { (base + 1000, base) };
+    if old_later {
+        r.exec(Op::Delete { p: del_new, x: 1, t: t_new }).await;
+        r.exec(Op::Delete { p: del_old, x: 1, t: t_old }).await;
+    } else {
+        r.exec(Op::Delete { p: del_old, x: 1, t: t_old }).await;
+        r.exec(Op::Delete { p: del_new, x: 1, t: t_new }).await;
+    }
+    for (i, (dst, src)) in order.iter().enumerate() { r.exec(Op::Pull { dst: *dst, src: *src, t: base + 2000 + i as i64 }).await; }
+}
+
+/// many rows and many deletion records on ONE day, served in small answers: every serving loop
+/// (deletion records, row identifiers, rows) has to cut the day into several batches
+pub async fn batching_history(r: &mut Runner<'_>, rows: u64, deleted: u64) {
+    let t = T0 + 1000;
+    for x in 1..=rows { r.exec(Op::Create { p: 0, x, t: t + x as i64 }).await; }
+    r.net.serve_buffer.store(SMALL_ANSWER, std::sync::atomic::Ordering::SeqCst);
+    r.exec(Op::Pull { dst: 1, src: 0, t: t + 1000 }).await;
+    for x in 1..=deleted { r.exec(Op::Delete { p: 0, x, t: t + 2000 + x as i64 }).await; }
+    r.exec(Op::Pull { dst: 1, src: 0, t: t + 5000 }).await;
+    if r.n > 2 { r.exec(Op::Pull { dst: 2, src: 1, t: t + 6000 }).await; }
 }
